@@ -335,18 +335,21 @@ func (sc SimpleColumn) WriteTo(store ReadOnlyFactStore, w io.Writer) error {
 // ReadPred reads matching facts for a single predicate with arity > 0.
 // len(filter) must match p.Arity.
 func (SimpleColumn) readPred(scanner *bufio.Scanner, p ast.PredicateSym, numFacts int, filter []ast.BaseTerm, cb func(args []ast.BaseTerm) error) error {
-	args := make([][]ast.BaseTerm, numFacts)
+	// Rows are allocated while the first column is read, so that memory use is
+	// bounded by the input actually present and not by the count in the header.
+	var args [][]ast.BaseTerm
 	numSkip := 0
-	skip := make([]bool, numFacts)
-	for i := 0; i < numFacts; i++ {
-		args[i] = make([]ast.BaseTerm, p.Arity)
-	}
+	var skip []bool
 	// TODO: It would be smarter to load and traverse those columns that
 	// have a filter present.
 	for j := 0; j < p.Arity; j++ {
 		for i := 0; i < numFacts; i++ {
 			if ok := scanner.Scan(); !ok {
 				return fmt.Errorf("scanning pred %v column %d fact %d: %w", p, j, i, ErrCouldNotRead)
+			}
+			if j == 0 {
+				args = append(args, make([]ast.BaseTerm, p.Arity))
+				skip = append(skip, false)
 			}
 			if skip[i] { // Fact does not match anyway.
 				continue
